@@ -900,6 +900,7 @@ func Main() {
 	nSmall := r.N(6, 300)
 	r.Cases("small", nSmall, opts(r.N(6, 16)), smallLog)
 	r.Cases("large", r.N(40, 3000), opts(r.N(8, 16)), largeLog)
+	r.Cases("encoder", r.N(40, 2000), opts(r.N(8, 16)), encoderCase)
 
 	if !r.IsChild() && os.Getenv("VERIF_ONLY_CASE") == "" {
 		complete := r.Counter("exh_logs_done") == int64(nSmall)+int64(corpusExhaustive)
@@ -915,6 +916,7 @@ func Main() {
 		r.Exhaustive(complete)
 		r.Floor("exh_logs_done", int64(nSmall))
 		r.Floor("rotations", 20)
+		r.Floor("encoder_rotations", 100)
 		r.Floor("layouts_with_high_file_indices", 5)
 		r.Floor("restarts", 20)
 		r.Floor("search_found", 50)
